@@ -12,6 +12,7 @@ system prescribes, with the address of logical position `(row, col)` for every y
 import Matreex.Model.IterMut
 import Matreex.Lemmas.Matrix
 import Matreex.Lemmas.IterMut
+import Matreex.Lemmas.BridgeIterMut
 
 namespace Matreex.C03
 open Matreex Matreex.IterMut
@@ -648,6 +649,43 @@ theorem addr_in_buffer {α : Type} (cfg : Cfg) (m : Matrix α) (h : m.Coh) (hc :
   have : (elemOffset m rows p1 p2 + 1) * cfg.es ≤ cfg.len * cfg.es := Nat.mul_le_mul_right _ hlt
   rw [Nat.add_mul, Nat.one_mul] at this
   omega
+
+/-! ### the state machines of this file ARE the source's methods (translator T4) -/
+
+/-- The stepping and length functions of both iterators, regenerated from `src/iter/iter_mut.rs` on
+every run (`Gen/IterMutGen.lean`: every pointer operation, comparison, field update and arithmetic
+operator comes from the Rust text), are equal — results, final states and faults — to the model
+functions the theorems above are about, on every state the refinement invariants `R` / `RV`
+describe (for zero-sized element types the source re-checks `NonNull::new_unchecked` on a forward
+step, which the invariant discharges); `next_back` and the length functions of the inner iterator
+need no hypothesis at all. -/
+theorem iterators_are_the_source (cfg : Cfg) :
+    (∀ (lower0 stride length : Nat) (it : Nth) (f b : Nat), Valid cfg lower0 stride length →
+        R cfg lower0 stride length it f b → Gen.IterMut.Nth.next cfg it = Nth.next cfg it) ∧
+    (∀ it : Nth, Gen.IterMut.Nth.nextBack cfg it = Nth.nextBack cfg it) ∧
+    (∀ it : Nth, Gen.IterMut.Nth.len cfg it = Nth.len cfg it) ∧
+    (∀ (lower0 AS AL VS VL : Nat) (it : Vecs) (F B : Nat), RV cfg lower0 AS AL VS VL it F B →
+        Gen.IterMut.Vecs.next cfg it = Vecs.next cfg it ∧
+        Gen.IterMut.Vecs.nextBack cfg it = Vecs.nextBack cfg it) ∧
+    (∀ it : Vecs, Gen.IterMut.Vecs.len cfg it = Vecs.len cfg it) :=
+  ⟨fun lower0 stride length it f b hv hr => BridgeIterMut.nth_next_bridge_R cfg lower0 stride length it f b hv hr,
+   fun it => BridgeIterMut.nth_nextBack_bridge cfg it,
+   fun it => BridgeIterMut.nth_len_bridge cfg it,
+   fun lower0 AS AL VS VL it F B hr =>
+     ⟨BridgeIterMut.vecs_next_bridge_RV cfg lower0 AS AL VS VL it F B hr,
+      BridgeIterMut.vecs_nextBack_bridge_RV cfg lower0 AS AL VS VL it F B hr⟩,
+   fun it => BridgeIterMut.vecs_len_bridge cfg it⟩
+
+/-- ... and so are the constructors: `over_major_axis` / `over_minor_axis` (whenever the buffer
+pointer of a non-empty matrix is not null, which `Vec` guarantees) and `assemble` of the inner
+iterator on every valid vector -/
+theorem constructors_are_the_source (cfg : Cfg) (sh : AxisShape) (hb : cfg.len ≠ 0 → cfg.base ≠ 0) :
+    Gen.IterMut.Vecs.overMajor cfg sh = Vecs.overMajor cfg sh ∧
+    Gen.IterMut.Vecs.overMinor cfg sh = Vecs.overMinor cfg sh ∧
+    (∀ lower0 stride length, Valid cfg lower0 stride length →
+      Gen.IterMut.Nth.assemble cfg lower0 stride length = Nth.assemble cfg lower0 stride length) :=
+  ⟨BridgeIterMut.vecs_overMajor_bridge cfg sh hb, BridgeIterMut.vecs_overMinor_bridge cfg sh hb,
+   fun lower0 stride length hv => BridgeIterMut.nth_assemble_bridge_valid cfg lower0 stride length hv⟩
 
 /-! ### non-vacuity: a 2×3 column-major matrix of 4-byte elements at address 4096 -/
 
